@@ -394,7 +394,7 @@ impl ActorCell {
         let mut pending = vec![self.clone()];
         while let Some(actor) = pending.pop() {
             // We don't need to notify of exit if we're already stopping or stopped.
-            if actor.get_status() <= ActorStatus::Upgrading {
+            if actor.get_status() < ActorStatus::Stopping {
                 actor.kill();
                 #[cfg(ractor_verif)]
                 crate::verif::point("term.kill", actor.get_id().pid(), 0);
